@@ -123,6 +123,7 @@ func specOptVal(a string, p int, c uint8, acc string) string {
 //@ contract specIndexNul
 //@   decreases len(s) - i
 //@   ensures result >= 0 && result <= len(s) && (i >= 0 && i <= len(s) ==> result >= i)
+//@   ensures[first] forall j int :: {s[j]} i >= 0 && i <= j && j < result ==> s[j] != 0
 func specIndexNul(s string, i int) int {
 	if i < 0 || i >= len(s) {
 		return len(s)
@@ -965,4 +966,70 @@ func lemmaRTv4(d *DHCPv4, k uint8) {
 	_, hd := d.Options[k]
 	verifAssert(hq == hd)
 	verifAssert(string(q.Options[k]) == string(d.Options[k]))
+}
+
+
+// ---------- C06: decode -> encode -> decode is a fixpoint (DHCPv4) ----------
+
+// lemmaCutNoNul: a name cut at its first NUL contains no NUL
+//@ contract lemmaCutNoNul
+//@   requires 0 <= i && i <= specIndexNul(s, 0)
+//@   decreases specIndexNul(s, 0) - i
+//@   ensures specNoNul(s[:specIndexNul(s, 0)], i)
+func lemmaCutNoNul(s string, i int) {
+	if i < specIndexNul(s, 0) {
+		lemmaCutNoNul(s, i+1)
+	}
+}
+
+// lemmaEncCong: option maps that agree on every code other than pad and end have the same canonical encoding
+//@ contract lemmaEncCong
+//@   requires 0 <= c0 && c0 <= 255
+//@   requires forall k uint8 :: {specHas(m1, k)} {specHas(m2, k)} k != 0 && k != 255 ==> specHas(m1, k) == specHas(m2, k) && m1[k] == m2[k]
+//@   decreases 256 - c0
+//@   ensures specEncFrom(m1, c0) == specEncFrom(m2, c0)
+func lemmaEncCong(m1 map[uint8]string, m2 map[uint8]string, c0 int) {
+	if c0 < 255 {
+		lemmaEncCong(m1, m2, c0+1)
+	}
+}
+
+// lemmaFixV4: for every byte string the decoder accepts (names that fit their fields: a field without a NUL terminator is
+// the documented normalisation), encoding the decoded packet gives bytes that decode to an equal packet, and encoding
+// that packet again reproduces the same bytes. Real FromBytes and ToBytes, checked against their contracts and the lemmas.
+//@ contract lemmaFixV4
+//@   use lemmaCutNoNul(string(b)[44:108], 0)
+//@   use lemmaCutNoNul(string(b)[108:236], 0)
+//@   after `p, err := FromBytes(b)` let M1 = mapview(p.Options)
+//@   after `b2 := p.ToBytes()` use lemmaV4Area(M1, v4Pad(len(specEncFrom(M1, 0))), k)
+//@   after `b2 := p.ToBytes()` use lemmaNameField(p.ServerHostName, 63, 64, 0)
+//@   after `b2 := p.ToBytes()` use lemmaNameField(p.BootFileName, 127, 128, 0)
+//@   after `p2, err2 := FromBytes(b2)` let M2 = mapview(p2.Options)
+//@   after `verifAssert(string(p2.Options[k]) == v1)` use lemmaV4Area(M1, v4Pad(len(specEncFrom(M1, 0))), any(uint8))
+//@   after `verifAssert(string(p2.Options[k]) == v1)` use lemmaEncCong(M2, M1, 0)
+func lemmaFixV4(b []byte, k uint8) {
+	p, err := FromBytes(b)
+	if err != nil || len(p.ServerHostName) > 63 || len(p.BootFileName) > 127 || k == 0 || k == 255 {
+		return
+	}
+	v1 := string(p.Options[k])
+	_, h1 := p.Options[k]
+	b2 := p.ToBytes()
+	sb := string(b2)
+	lemmaBytes4(sb, 0, int(p.OpCode), int(p.HWType), len(p.ClientHWAddr), int(p.HopCount))
+	lemmaBytes4(sb, 8, int(p.NumSeconds)/256, int(p.NumSeconds)%256, int(p.Flags)/256, int(p.Flags)%256)
+	lemmaPrefixFixed(sb, 28, string(p.ClientHWAddr), 16)
+	p2, err2 := FromBytes(b2)
+	verifAssert(err2 == nil)
+	verifAssert(p2.OpCode == p.OpCode && p2.HWType == p.HWType && p2.HopCount == p.HopCount)
+	verifAssert(p2.TransactionID == p.TransactionID && p2.NumSeconds == p.NumSeconds && p2.Flags == p.Flags)
+	verifAssert(string(p2.ClientIPAddr) == string(p.ClientIPAddr) && string(p2.YourIPAddr) == string(p.YourIPAddr))
+	verifAssert(string(p2.ServerIPAddr) == string(p.ServerIPAddr) && string(p2.GatewayIPAddr) == string(p.GatewayIPAddr))
+	verifAssert(string(p2.ClientHWAddr) == string(p.ClientHWAddr))
+	verifAssert(p2.ServerHostName == p.ServerHostName && p2.BootFileName == p.BootFileName)
+	_, h2 := p2.Options[k]
+	verifAssert(h2 == h1)
+	verifAssert(string(p2.Options[k]) == v1)
+	b3 := p2.ToBytes()
+	verifAssert(string(b3) == string(b2))
 }
